@@ -212,7 +212,15 @@ func (g *richGen) funcDecl(v *Vocab, depth int, strOnly bool) D {
 		case 2:
 			script = "({v: " + script + ", n: 2.5})"
 		}
-		args = append(args, D{"const": script})
+		if name == "javascript" && g.o.Copy && !strOnly && !throws && r.Chance(1, 6) {
+			// a script that is handed a copy of the cursor's subtree and writes into the objects it finds there: what it is handed is its own
+			script = "(function(){ var n = 0; for (var k in rec) { var v = rec[k]; if (v && typeof v === 'object' && !(v instanceof Array)) { v.touched_by_script = true; n++ } } return 'js:wrote:' + n })()"
+			args = append(args, D{"const": script}, D{"const": "rec"}, D{"custom_func": D{"name": "copy"}, "keep_empty_or_null": true})
+			used = nil
+			g.Stats["js_script_writing_into_a_copy"]++
+		} else {
+			args = append(args, D{"const": script})
+		}
 		for _, u := range used {
 			var val D
 			switch r.Intn(4) {
